@@ -28,7 +28,11 @@ RULE = ("client scripts from a grammar over AUTH (EXTERNAL / DBUS_COOKIE_SHA1 / 
         "login names, non-decimal spellings), cookie responses (right / wrong hash / wrong id / wrong context / stale "
         "cookie / malformed) computed from the server's live challenge; each script runs under one allowed-mechanism "
         "setting x socket credentials (daemon layer: unix sockets of uid 0 / 1 / 65534 and loopback TCP without credentials) x chunking (one write, 1-byte dribble, random cuts, per line, cut around BEGIN, "
-        "fixed k). Oracle: vf/sasl.py stepped alongside. distinct = (layer, scenario, mechanism setting, credential "
+        "fixed k). Oracle: vf/sasl.py stepped alongside. Server-application layer: a libdbus DBusServer (harness/h_hs.c) with / without a "
+        "unix-user function that lets every uid in and with / without anonymous access, seven handshakes (ANONYMOUS with and without trace, "
+        "EXTERNAL own / empty / other uid, EXTERNAL rejected then ANONYMOUS, BEGIN alone) in three chunkings: authenticated exactly when the "
+        "permitted mechanism says so, the identity the application sees, the unix-user function never asked about a peer without uid, the "
+        "message behind BEGIN delivered exactly once or not at all. distinct = (layer, scenario, mechanism setting, credential "
         "class, chunking kind, final outcome, set of model branches taken). Admission layer: histories of "
         "connect-as-uid / close / ReloadConfig with another <allow|deny user=/group=> policy on the real daemon, every "
         "attempt judged against the policy in force, also while other connections of the same user exist")
@@ -1252,7 +1256,102 @@ def _forced(rng, k, uid):
 
 # --------------------------------------------------------------------------------------- entry point
 
+# --------------------------------------------------------------------------------------- server-application layer
+# A libdbus SERVER application (harness/h_hs.c: DBusServer on a unix socket, optionally with a unix-user function that lets
+# every uid in, optionally with anonymous access enabled) and a raw client: what the application sees after the handshake.
+
+def _worker_srvapp(args):
+    seed, shard, b = args
+    part = report.Part()
+    rng = gen.rng_for(seed, PROP, "srvapp", shard)
+    exe = b.harness("h_hs", testutils=True)
+    me = os.getuid()
+    call = wire.encode_message(1, [(1, Variant(b"o", b"/x")), (3, Variant(b"s", b"Ping")), (2, Variant(b"s", b"com.example.X"))], b"", [], serial=7)
+    scripts = {
+        "anonymous": b"\0AUTH ANONYMOUS\r\nBEGIN\r\n",
+        "anonymous-trace": b"\0AUTH ANONYMOUS 7665726966\r\nBEGIN\r\n",
+        "external-own": b"\0AUTH EXTERNAL " + hx(str(me).encode()) + b"\r\nBEGIN\r\n",
+        "external-empty": b"\0AUTH EXTERNAL\r\nDATA\r\nBEGIN\r\n",
+        "external-other": b"\0AUTH EXTERNAL " + hx(str(me + 1234).encode()) + b"\r\nBEGIN\r\n",
+        "external-rejected-then-anonymous": b"\0AUTH EXTERNAL " + hx(str(me + 1234).encode()) + b"\r\nAUTH ANONYMOUS\r\nBEGIN\r\n",
+        "begin-only": b"\0BEGIN\r\n",
+    }
+    for userfn in (False, True):
+        for anon in (False, True):
+            env = {"VERIF_RUNDIR": tempfile.mkdtemp(prefix="verif-c08s-")}
+            if userfn:
+                env["VERIF_HS_USERFN"] = "1"
+            if anon:
+                env["VERIF_HS_ANON"] = "1"
+            names, lines = [], []
+            for name, hs in sorted(scripts.items()):
+                for rep in range(3):
+                    data = hs + call
+                    cuts = "-"
+                    if rep == 1:
+                        left, cs = len(data), []
+                        while left > 0:
+                            c = min(left, rng.randint(1, 40))
+                            cs.append(c)
+                            left -= c
+                        cuts = ",".join(str(x) for x in cs)
+                    if rep == 2:
+                        cuts = ",".join(["1"] * len(data))
+                    names.append(name)
+                    lines.append("%s %s" % (data.hex(), cuts))
+            try:
+                res = hrun.run_cases(exe, lines, env=env)
+            finally:
+                shutil.rmtree(env["VERIF_RUNDIR"], ignore_errors=True)
+            for name, out in zip(names, res):
+                part.evaluations += 1
+                setting = "userfn=%d,anon=%d" % (userfn, anon)
+                wit = {"layer": "server-application", "script": name, "setting": setting, "result": out}
+                if not isinstance(out, dict) or "auth" not in out:
+                    part.violation("%s:server-app:harness-crash:%s" % (PROP, name), "h_hs gave no result for %s (%s): %r" % (name, setting, out), wit)
+                    continue
+                part.count("server-app:cases")
+                part.count("server-app:" + name)
+                delivered = len(out.get("msgs") or [])
+                want_auth = {"anonymous": anon, "anonymous-trace": anon, "external-own": True, "external-empty": True,
+                             "external-other": False, "external-rejected-then-anonymous": anon, "begin-only": False}[name]
+                part.sig("server-app", name, userfn, anon, out["auth"], out["anon"], delivered)
+                if bool(out["auth"]) != want_auth:
+                    part.violation("%s:server-app:%s:%s" % (PROP, "authenticated-although-not-permitted" if out["auth"] else "not-authenticated", name),
+                                   "libdbus server application (%s), script %s: authenticated=%d, the mechanism the server permits would give %d"
+                                   % (setting, name, out["auth"], want_auth), wit)
+                    continue
+                if not want_auth and delivered:
+                    part.violation("%s:server-app:message-delivered-without-authentication:%s" % (PROP, name),
+                                   "%d message(s) reached the application of a connection that is not authenticated" % delivered, wit)
+                if out.get("userfn_uid_is_unset"):
+                    part.violation("%s:server-app:unix-user-function-called-without-a-uid:%s" % (PROP, name),
+                                   "the application's unix-user function was asked about a peer that has no uid (%s)" % setting, wit)
+                if want_auth:
+                    if name in ("external-own", "external-empty"):
+                        if not (out["has_uid"] == 1 and out["uid"] == me and out["anon"] == 0):
+                            part.violation("%s:server-app:identity-differs:%s" % (PROP, name),
+                                           "after EXTERNAL as uid %d the application sees has_uid=%r uid=%r anonymous=%r" % (me, out["has_uid"], out["uid"], out["anon"]), wit)
+                        elif userfn and not (out["userfn_calls"] >= 1 and out["userfn_uid"] == me):
+                            part.violation("%s:server-app:unix-user-function-not-asked:%s" % (PROP, name),
+                                           "the unix-user function was called %d times, last with uid %r" % (out["userfn_calls"], out["userfn_uid"]), wit)
+                        else:
+                            part.count("server-app:identity-checked")
+                    else:
+                        if not (out["anon"] == 1 and out["has_uid"] == 0):
+                            part.violation("%s:server-app:identity-differs:%s" % (PROP, name),
+                                           "after ANONYMOUS the application sees has_uid=%r anonymous=%r" % (out["has_uid"], out["anon"]), wit)
+                        else:
+                            part.count("server-app:identity-checked")
+                    if delivered != 1:
+                        part.violation("%s:server-app:message-after-begin-delivered-%d-times:%s" % (PROP, delivered, name),
+                                       "the message sent right after BEGIN reached the application %d times" % delivered, wit)
+    return part
+
+
 def _dispatch(s):
+    if s[0] == "S":
+        return _worker_srvapp(s[1])
     if s[0] == "A":
         from checks import c08adm
         return c08adm.worker(s[1])
@@ -1261,6 +1360,13 @@ def _dispatch(s):
 
 def _replay(r, b, exe, root, path):
     w = json.load(open(path))["witness"]
+    if w.get("layer") == "server-application":
+        # the layer is small and deterministic: run all of it again
+        part = _worker_srvapp((r.seed, 0, b))
+        part.sig("replay", 1)
+        part.sig("replay", 2)
+        r.merge(part)
+        return r.finish()
     rng = gen.rng_for(r.seed, PROP, "replay")
     part = report.Part()
     env = Env(os.path.join(root, "replay"), rng)
@@ -1322,6 +1428,7 @@ def run(tier, seed, replay=None, scale=1.0):
         n_a = int((96 if tier == "quick" else 3000) * scale)
         if os.getuid() == 0:
             shards += [("A", (seed, i, max(1, n_a // 16))) for i in range(16)]
+        shards += [("S", (seed, i, b)) for i in range(2 if tier == "quick" else 16)]
         can_switch = os.getuid() == 0
         if not can_switch:
             r.inconclusive.append("not running as root: sockets with other kernel credentials cannot be made")
